@@ -4,7 +4,7 @@ use serde_json::{json, Value};
 
 use crate::broad::*;
 use crate::build::build_level;
-use crate::engine::{Ctx, Prop, Verdict};
+use crate::engine::{Ctx, Prop, Regression, Verdict};
 use crate::gen::*;
 use crate::outcome::{guarded, run, show_argv, Outcome};
 use crate::spec::*;
@@ -127,6 +127,254 @@ fn movement(base: &Layout, perm: &Layout) -> (usize, bool) {
     (moved, between)
 }
 
+
+// ---------------------------------------------------------------------------------------------
+// second family: a repeated group whose members are a named lead and 1-2 positionals
+// (`construct!(flag, positional).many()`, not adjacent): the named occurrences may stand anywhere
+// among the words, each block takes the next lead and the next words in order
+// ---------------------------------------------------------------------------------------------
+
+/// known finding: inside a repeated group the positional member takes the detached value of a
+/// later occurrence of the group's argument
+pub const SIG_GROUP_DETACHED: &str =
+    "order-changes-outcome/group-with-positionals/argument-value-taken-as-positional";
+
+pub struct GroupCase {
+    pub level: Level,
+    pub base: Vec<Vec<u8>>,
+    pub perm: Vec<Vec<u8>>,
+    /// the base line is a sentence
+    pub sentence: bool,
+    pub tokens: Vec<Vec<u8>>,
+    /// the lead is an argument and some occurrence is not spelled `name=value`
+    pub lead_detached: bool,
+}
+
+pub fn decode_group(bytes: &[u8]) -> GroupCase {
+    let mut u = Un::new(bytes);
+    let mut names = Names::new();
+    let mut fields: Vec<Node> = Vec::new();
+    let mut others: Vec<NamedSpec> = Vec::new();
+    for _ in 0..u.below(3) {
+        let n = if u.bool() {
+            gen_named_leaf(&mut u, &mut names, NamedKind::Switch)
+        } else {
+            gen_named_leaf(
+                &mut u,
+                &mut names,
+                NamedKind::Arg {
+                    ty: Ty::Str,
+                    metavar: "ARG".into(),
+                    adjacent: false,
+                },
+            )
+        };
+        others.push(n.clone());
+        fields.push(if n.is_arg() {
+            Node::Optional {
+                n: Node::Named(n).b(),
+                catch: false,
+            }
+        } else {
+            Node::Named(n)
+        });
+    }
+    let lead = if u.bool() {
+        gen_named_leaf(&mut u, &mut names, NamedKind::ReqFlag)
+    } else {
+        gen_named_leaf(
+            &mut u,
+            &mut names,
+            NamedKind::Arg {
+                ty: Ty::Str,
+                metavar: "LEAD".into(),
+                adjacent: false,
+            },
+        )
+    };
+    let n_pos = 1 + u.below(2);
+    let mut members = vec![Node::Named(lead.clone())];
+    for _ in 0..n_pos {
+        members.push(Node::Pos(PosSpec {
+            id: names.id(),
+            metavar: "WORD".into(),
+            ty: Ty::Str,
+            help: None,
+            strict: Strictness::Unrestricted,
+        }));
+    }
+    let group = Node::Seq(members);
+    let some = u.chance(80);
+    fields.push(if some {
+        Node::Some {
+            n: group.b(),
+            catch: false,
+            msg: "need a block".into(),
+        }
+    } else {
+        Node::Many {
+            n: group.b(),
+            catch: false,
+        }
+    });
+    let level = Level::simple(Node::Seq(fields));
+
+    // blocks
+    let k = u.weighted(&[1, 3, 4, 3]);
+    let mut tokens: Vec<Vec<u8>> = Vec::new();
+    let mut named_units: Vec<Vec<Vec<u8>>> = Vec::new(); // leads in order
+    let mut words: Vec<Vec<u8>> = Vec::new();
+    let mut spell_unit = |u: &mut Un, names: &mut Names, n: &NamedSpec, tokens: &mut Vec<Vec<u8>>| -> Vec<Vec<u8>> {
+        let value = if n.is_arg() {
+            let v = format!("v{}", names.val()).into_bytes();
+            tokens.push(v.clone());
+            Some(v)
+        } else {
+            None
+        };
+        let o = Occ {
+            leaf: n.id,
+            alias: pick_alias(u, n),
+            value,
+            adjacent_only: false,
+        };
+        let ss = spellings_for(&o);
+        spell(&o, *u.pick(&ss))
+    };
+    for _ in 0..k {
+        named_units.push(spell_unit(&mut u, &mut names, &lead, &mut tokens));
+        for _ in 0..n_pos {
+            let w = format!("w{}", names.val()).into_bytes();
+            tokens.push(w.clone());
+            words.push(w);
+        }
+    }
+    let mut other_units: Vec<Vec<Vec<u8>>> = Vec::new();
+    for n in &others {
+        if u.bool() {
+            other_units.push(spell_unit(&mut u, &mut names, n, &mut tokens));
+        }
+    }
+    // base: block after block, the other options after the blocks
+    let mut base: Vec<Vec<u8>> = Vec::new();
+    for b in 0..k {
+        base.extend(named_units[b].iter().cloned());
+        base.extend(words[b * n_pos..(b + 1) * n_pos].iter().cloned());
+    }
+    for o in &other_units {
+        base.extend(o.iter().cloned());
+    }
+    // permuted: the words keep their order, the leads keep theirs, everything else is free
+    #[derive(Clone)]
+    enum Slot {
+        Lead,
+        Word,
+        Other(usize),
+    }
+    let mut slots: Vec<Slot> = Vec::new();
+    slots.extend(std::iter::repeat(Slot::Lead).take(k));
+    slots.extend(std::iter::repeat(Slot::Word).take(words.len()));
+    slots.extend((0..other_units.len()).map(Slot::Other));
+    let order = u.permutation(slots.len());
+    let (mut li, mut wi) = (0, 0);
+    let mut perm: Vec<Vec<u8>> = Vec::new();
+    for i in order {
+        match &slots[i] {
+            Slot::Lead => {
+                perm.extend(named_units[li].iter().cloned());
+                li += 1;
+            }
+            Slot::Word => {
+                perm.push(words[wi].clone());
+                wi += 1;
+            }
+            Slot::Other(j) => perm.extend(other_units[*j].iter().cloned()),
+        }
+    }
+    // `--name value` and `-nvalue` both leave the value as a word of its own after tokenising
+    let lead_detached = lead.is_arg()
+        && named_units
+            .iter()
+            .any(|x| x.len() == 2 || !x[0].contains(&b'='));
+    GroupCase {
+        level,
+        base,
+        perm,
+        sentence: k > 0 || !some,
+        tokens,
+        lead_detached,
+    }
+}
+
+fn check_group(bytes: &[u8], ctx: &mut Ctx) -> Verdict {
+    let case = decode_group(bytes);
+    let parser = match guarded(|| {
+        let p = build_level(&case.level);
+        p.check_invariants(false);
+        p
+    }) {
+        Ok(p) => p,
+        Err((at, msg)) => {
+            return Verdict::fail(
+                "generator/invariants",
+                format!("check_invariants panicked at {}: {}", at, msg),
+            )
+        }
+    };
+    let out_a = run(&parser, &case.base);
+    let out_b = run(&parser, &case.perm);
+    ctx.eval(2);
+    ctx.class("family:group-with-positionals");
+    for o in [&out_a, &out_b] {
+        if let Outcome::Panic { at, msg } = o {
+            return Verdict::fail(format!("panic@{}", at), msg.clone());
+        }
+    }
+    if case.base != case.perm && case.tokens.len() >= 3 {
+        ctx.nontrivial(fnv_str(&format!("{:?}{:?}{:?}", case.level, case.base, case.perm)));
+    }
+    if case.sentence {
+        match &out_a {
+            Outcome::Value(v) => {
+                let mut leaves = Vec::new();
+                v.leaves(&mut leaves);
+                // every token of the line is in the value, in the order of the blocks
+                let got: Vec<&Vec<u8>> = leaves.iter().filter(|l| case.tokens.contains(l)).collect();
+                if got.len() != case.tokens.len() {
+                    return Verdict::fail(
+                        "group-family/token-lost-or-duplicated",
+                        format!("{:?} -> {}", show_argv(&case.base), v),
+                    );
+                }
+            }
+            other => {
+                return Verdict::fail(
+                    "group-family/canonical-sentence-rejected",
+                    format!("{:?} -> {}", show_argv(&case.base), other.short()),
+                )
+            }
+        }
+    }
+    if !same_outcome(&out_a, &out_b) {
+        return Verdict::fail(
+            if case.lead_detached {
+                SIG_GROUP_DETACHED
+            } else {
+                "order-changes-outcome/group-with-positionals"
+            },
+            format!(
+                "{}\n  canonical {:?} -> {}\n  permuted  {:?} -> {}",
+                show_level(&case.level),
+                show_argv(&case.base),
+                out_a.short(),
+                show_argv(&case.perm),
+                out_b.short()
+            ),
+        );
+    }
+    Verdict::Pass
+}
+
 impl Prop for C03 {
     fn id(&self) -> &'static str {
         "C03"
@@ -135,7 +383,7 @@ impl Prop for C03 {
         (400_000, 2_000_000)
     }
     fn rule(&self) -> &'static str {
-        "choice bytes -> broad definition without adjacent groups -> sentence built first (unique \
+        "(7 cases in 8) choice bytes -> broad definition without adjacent groups -> sentence built first (unique \
          tokens; 1/4 of them made arity-invalid by deleting or duplicating a whole named block) -> \
          canonical layout and a permuted layout of the same blocks (a flag, or an argument with its \
          value, stay one block; blocks feeding the same top-level field keep their relative order; \
@@ -146,6 +394,10 @@ impl Prop for C03 {
          two positional words; distinct by hash of (definition, both argument vectors)."
     }
     fn check(&self, bytes: &[u8], ctx: &mut Ctx) -> Verdict {
+        // one case in eight belongs to the second family
+        if bytes.first().map_or(false, |b| b % 8 == 7) {
+            return check_group(&bytes[1..], ctx);
+        }
         let case = decode(bytes);
         for _ in 0..case.excluded {
             ctx.excluded("spelling covered by a C02 known finding");
@@ -239,7 +491,22 @@ impl Prop for C03 {
         }
         Verdict::Pass
     }
+    fn regressions(&self) -> Vec<Regression> {
+        vec![Regression {
+            name: "repeated-group-positional-takes-detached-value",
+            run: reg_group_detached,
+        }]
+    }
     fn describe(&self, bytes: &[u8]) -> Value {
+        if bytes.first().map_or(false, |b| b % 8 == 7) {
+            let g = decode_group(&bytes[1..]);
+            return json!({
+                "family": "repeated group with positional members",
+                "definition": show_level(&g.level),
+                "argv": show_argv(&g.base),
+                "argv_permuted": show_argv(&g.perm),
+            });
+        }
         let case = decode(bytes);
         let opts = SpellOpts::default();
         let mut st = SpellStats::default();
@@ -252,4 +519,43 @@ impl Prop for C03 {
             "sentence_mutation": case.mutated,
         })
     }
+}
+
+/// `construct!(long("alpha").argument("LEAD"), positional("WORD")).many()`: the blocks written as
+/// `--alpha v1 --alpha v3 w2 w4` fail (the positional takes `v3`), `--alpha v1 w2 --alpha v3 w4`
+/// and `--alpha=v1 --alpha=v3 w2 w4` give the same two pairs
+fn reg_group_detached(ctx: &mut Ctx) -> Verdict {
+    use crate::mk::*;
+    let l = lvl(seq(vec![many(seq(vec![
+        arg("", &["alpha"], Ty::Str),
+        pos("WORD", Ty::Str),
+    ]))]));
+    let p = build_level(&l);
+    let a: Vec<Vec<u8>> = ["--alpha", "v1", "w2", "--alpha", "v3", "w4"]
+        .iter()
+        .map(|x| x.as_bytes().to_vec())
+        .collect();
+    let b: Vec<Vec<u8>> = ["--alpha", "v1", "--alpha", "v3", "w2", "w4"]
+        .iter()
+        .map(|x| x.as_bytes().to_vec())
+        .collect();
+    let c: Vec<Vec<u8>> = ["--alpha=v1", "--alpha=v3", "w2", "w4"]
+        .iter()
+        .map(|x| x.as_bytes().to_vec())
+        .collect();
+    let (oa, ob, oc) = (run(&p, &a), run(&p, &b), run(&p, &c));
+    ctx.eval(3);
+    if !same_outcome(&oa, &oc) || !matches!(oa, Outcome::Value(_)) {
+        return Verdict::fail(
+            "order-changes-outcome/group-with-positionals",
+            format!("{:?} -> {} but {:?} -> {}", show_argv(&a), oa.short(), show_argv(&c), oc.short()),
+        );
+    }
+    if !same_outcome(&oa, &ob) {
+        return Verdict::fail(
+            SIG_GROUP_DETACHED,
+            format!("{:?} -> {} but {:?} -> {}", show_argv(&a), oa.short(), show_argv(&b), ob.short()),
+        );
+    }
+    Verdict::Pass
 }
